@@ -1,12 +1,15 @@
 /-
   C05: the Marshal / Unmarshal round trip of whole schema trees.
 
-  * `nodeOK` / `nodeOrd` / `treeAll`: decidable well-formedness of the subtree below a node;
-  * `normNode`: the node-local normal form UnmarshalJSON produces (nil-vs-empty, key order of maps,
-    the order of "properties", Extra), `TreeEq`: structural equality of two trees up to `normNode`;
-  * `sf_one`, `sf_many`, `sf_manyNN`, `sf_keyed`, `sf_props`, `sf_items`: one schema-valued member of the
-    emitted object read back by `setFields`; `node_chain`: all members of one node;
-  * `rt_main`: the induction over the tree; `TreeEq.marshal_eq`: equal trees marshal identically.
+  * `nodeOK` / `nodeOrd` / `nodeWF` / `treeAll`: decidable well-formedness of the subtree below a node;
+  * `normNode`: the node-local normal form UnmarshalJSON produces (nil-vs-empty, key order of maps, the order of
+    "properties", Extra), `TreeEq`: structural equality of two trees up to `normNode` at every node;
+  * `sf_one`, `sf_many`, `sf_manyNN`, `sf_keyed`, `sf_props`, `sf_items`, `sf_deps`: one schema-valued member of the
+    emitted object read back by `setFields` (given, for each child, what the induction hypothesis says: `ChildRT`);
+    `sf_enum`, `sf_const`, `sf_default`, `sf_examples`, `sf_vocab`, `sf_depReq`: the remaining non-scalar members;
+  * `node_chain` (generated): all members of one node, in emission order; `rt_main`: the induction over the tree;
+  * `marshalNode_norm`, `TreeEq.marshal_eq`: equal trees marshal identically; `marshalFuel_stable_full`;
+  * `roundtrip_tree_eq_core`, `roundtrip_tree_core`: the statements used by JSV/Props/C05.lean.
 -/
 import JSV.Proofs.MshScalar
 import JSV.Proofs.MshCloneOk
